@@ -121,6 +121,17 @@ add(
     "DESIGN.md §4 C18",
 )
 
+add(
+    "C07", "exploration",
+    "complete walk over the file-type tables + Hypothesis over the option product; round trip annotate -> lint --json / the tool's reader against by-construction expectations",
+    "Every key of the extension and file-name tables (~325 types) is annotated with default options (thorough: also forced single/multi-line) and ~6000 "
+    "sampled option combinations per quick run (forced styles, line modes, ten prefixes, year options, .license options, --no-replace, seven template "
+    "kinds incl. information-dropping ones, binary / uncommentable / unrecognised files, pre-existing headers in own or foreign style) are executed; a "
+    "reported success must read back as exactly before U requested, and a template that cannot carry requested information must not succeed.",
+    "File-type tables are domain data read from reuse.comment; contributors ending in a comment character are excluded (C02's recorded finding).",
+    "DESIGN.md §4 C07",
+)
+
 NOT_BUILT = "check not built yet in this revision of /verif (planned in DESIGN.md §4; property-based testing applies)"
 
 
